@@ -480,6 +480,9 @@ def apply_aln_ops(a, ops, log):
                 m = op[1]
                 a = a.rename_seqs(lambda n: m.get(n, n))
             elif k == "feature":
+                limit = len(a) if op[1] is None or not hasattr(a, "get_seq") else len(a.get_seq(op[1]))
+                if max(e for _, e in op[4]) > limit:
+                    raise ValueError("feature outside the (sliced) object")
                 a.add_feature(seqid=op[1], biotype=op[2], name=op[3], spans=[tuple(s) for s in op[4]], on_alignment=op[1] is None)
             elif k == "info":
                 a.info[op[1]] = op[2]
